@@ -114,3 +114,13 @@ def KF_hash_gat_positional():
     c=HashClient([("h",1)], socket_module=m)
     c.gat("k", 10)
     return m.socks[0].sent==[b"gat 0 k\r\n"]
+
+
+def f12_set_many_ignore_exc_never_marks():
+    """F12 (fixed by 0b20077): HashClient.set_many with ignore_exc=True against an unreachable server."""
+    from pymemcache.client.hash import HashClient
+
+    c = HashClient([("127.0.0.1", 1)], ignore_exc=True, retry_attempts=2, connect_timeout=0.2, timeout=0.2)
+    res = c.set_many({"a": 1, "b": 2})
+    # before the fix: res == [] (all "stored") and c._failed_clients == {} (server never marked)
+    return sorted(res), list(c._failed_clients)
